@@ -190,9 +190,14 @@ def r10_5(prog, rep):
     # the list that becomes factors_with_new_levels
     fin = [st for st in body if isinstance(st, ast.Assign) and unparse(st.targets[0]) == f"{container}.factors_with_new_levels"]
     L = None
+    dedup_late = False  # tuple(dict.fromkeys(L)): duplicates are removed afterwards, first appearance kept
     if len(fin) == 1 and isinstance(fin[0].value, ast.Call) and dotted(fin[0].value.func) == "tuple" and len(fin[0].value.args) == 1 \
-            and isinstance(fin[0].value.args[0], ast.Name) and body.index(fin[0]) > body.index(lp):
-        L = fin[0].value.args[0].id
+            and body.index(fin[0]) > body.index(lp):
+        a0 = fin[0].value.args[0]
+        if isinstance(a0, ast.Name):
+            L = a0.id
+        elif isinstance(a0, ast.Call) and dotted(a0.func) == "dict.fromkeys" and len(a0.args) == 1 and isinstance(a0.args[0], ast.Name):
+            L, dedup_late = a0.args[0].id, True
     obl(rep, f, fin[0] if fin else f.node, "R10.5", L is not None, "factors_with_new_levels is returned as a tuple of the collected names")
     if L is None:
         return
@@ -213,12 +218,16 @@ def r10_5(prog, rep):
     if not ok or W is None:
         return
     path = apps[0][2]
-    okc = len(path) == 1 and path[0][1] is True
-    width_cmp = dedup = False
+    okc = len(path) >= 1 and all(c_[1] is True for c_ in path)
+    width_cmp = False
+    dedup = dedup_late
     parts = []
     if okc:
-        t = ast.parse(path[0][0], mode="eval").body
-        conj = t.values if isinstance(t, ast.BoolOp) and isinstance(t.op, ast.And) else [t]
+        # nested `if a: if b:` is the conjunction a and b
+        conj = []
+        for c_ in path:
+            t = ast.parse(c_[0], mode="eval").body
+            conj.extend(t.values if isinstance(t, ast.BoolOp) and isinstance(t.op, ast.And) else [t])
         parts = [unparse(c) for c in conj]
         fresh = SX.SymExec()
 
@@ -251,7 +260,7 @@ def r10_5(prog, rep):
                 pair = {width_desc(c.left), width_desc(c.comparators[0])}
                 width_cmp = pair == {"old", "new"}
                 parts.append(f"width comparison sides: {sorted(pair)}")
-        okc = width_cmp and dedup and len(conj) == 2
+        okc = width_cmp and dedup and len(conj) == (1 if dedup_late else 2)
     obl(rep, f, apps[0][1][2], "R10.5", okc,
         "a factor is reported iff the training slice width of the SAME term differs from its new width, once per factor",
         str(parts), f"the report is guarded by {parts or [c for c in path]}: not `training width of this term != its new width, and not yet reported`")
